@@ -796,11 +796,23 @@ PAGE_OPTIONS = dict(contiguous=True, photometric="minisblack", metadata={"unit":
 
 def transform_loop():
     """the frame loop of ToImageStack.transform, cut by the same invariant as in its own contract (contracts/C20.py: reg_transform)"""
-    return {0: dict(invariant=[("frames-so-far", B.closed(lambda E, v, o: B.tr_frames(E, v, o, k=v["_k0"])))], types={"__yield__": "ref"}, modifies=["__yield__"])}
+    return {0: dict(invariant=[("frames-so-far", B.closed(lambda E, v, o: B.tr_frames(E, v, o, k=v["_k0"])))], types={"__yield__": X.frame_list}, modifies=["__yield__"])}
+
+
+def expected_page(E):
+    """(block the k-th tif.write must receive, number of frames): frame k itself when the stack has two or more frames; for a stack of ONE frame the
+    frame with a leading axis, frame[np.newaxis], shape (1, X, Y) - a bare (X, Y) page is a 2-D image for tifffile (axes 'YX') and is not read
+    back as a stack (property C20: "for all stack shapes including size-1 axes")"""
+    at, n = E.ghost["page_frames"](E)
+    return (lambda j: z3.If(n == 1, X.FRAME_NEWAXIS0(at(z3.IntVal(0))), at(j))), n
+
+
+EFFECT_OPTIONS = "effect/every-page-written-contiguous-minisblack-unit-um-axes-ZXY-with-the-given-resolution-into-the-named-file"
+EFFECT_BLOCK = "effect/block-k-written-is-frame-k-of-the-stack-a-ONE-frame-stack-is-written-as-a-(1,X,Y)-block"
 
 
 def page_hook(E, page):
-    """ghost code run at every tif.write(...): appends (frame, options-as-documented?) to the symbolic page log"""
+    """ghost code run at every tif.write(...): appends (block, options-as-documented?) to the symbolic page log"""
     want_res = E.ghost["want_resolution"]
     kw = page["kwargs"]
     md = kw.get("metadata")
@@ -810,16 +822,20 @@ def page_hook(E, page):
           and (res is want_res or (isinstance(res, tuple) and isinstance(want_res, tuple) and len(res) == len(want_res) and all(a is b or a == b for a, b in zip(res, want_res))))
           and page["file"] is E.ghost["want_file"])
     data = page["data"]
-    if not (isinstance(data, Sym) and data.kind == "ref"):
+    if not ((isinstance(data, Sym) and data.kind == "ref") or isinstance(data, Opaque)):
         raise X.Unsupported("TiffWriter.write of a value that is not a frame reference")
-    # an EFFECT obligation per tif.write (externally meaningful: what reaches the file), besides the log entry the invariants speak about
-    E.prove(f"{E.cur_contract.short}/effect/every-page-written-contiguous-minisblack-unit-um-axes-ZXY-with-the-given-resolution-into-the-named-file", bool(ok), "postcondition")
-    E.models.LIST_METHODS["append"](E, E.ghost["page_log"], [(data, 1 if ok else 0)], {})
+    # EFFECT obligations per tif.write (externally meaningful: what reaches the file), besides the log entry the invariants speak about
+    E.prove(f"{E.cur_contract.short}/{EFFECT_OPTIONS}", bool(ok), "postcondition")
+    log = E.ghost["page_log"]
+    want, _ = expected_page(E)
+    E.prove(f"{E.cur_contract.short}/{EFFECT_BLOCK}", data.z == want(zint(log.n)), "postcondition")  # k = number of pages written so far
+    E.models.LIST_METHODS["append"](E, log, [(Sym(data.z, "ref"), 1 if ok else 0)], {})
 
 
-def pages_setup(S, fname, want_resolution):
+def pages_setup(S, fname, want_resolution, page_frames):
+    """page_frames(E) -> (frame_at(j: z3 Int) -> z3 reference, number of frames): the stack that is to be written"""
     log = PList.fresh(["ref", "int"], n=z3.IntVal(0), name="pages")
-    S.eng.ghost.update(page_log=log, tiff_page_hook=page_hook, want_resolution=want_resolution, want_file=fname)
+    S.eng.ghost.update(page_log=log, tiff_page_hook=page_hook, want_resolution=want_resolution, want_file=fname, page_frames=page_frames)
     return log
 
 
@@ -827,12 +843,20 @@ def page_log_of(E):
     return E.ghost["page_log"]
 
 
-def pages_are(E, count, frame_at, upto=None):
-    """the page log holds exactly `upto` (default: count) pages; page j is frame_at(j) written with the documented options"""
+def pages_are(E, count, block_at, upto=None):
+    """the page log holds exactly `upto` (default: count) blocks; block j is block_at(j) written with the documented options"""
     log = page_log_of(E)
     k = count if upto is None else upto
     j = z3.Int(fresh_name("j"))
-    return z3.And(zint(log.n) == k, z3.ForAll([j], z3.Implies(z3.And(0 <= j, j < k), z3.And(z3.Select(log.cols[0], j) == frame_at(j), z3.Select(log.cols[1], j) == 1))))
+    return z3.And(zint(log.n) == k, z3.ForAll([j], z3.Implies(z3.And(0 <= j, j < k), z3.And(z3.Select(log.cols[0], j) == block_at(j), z3.Select(log.cols[1], j) == 1))))
+
+
+def one_frame_block(E):
+    """a ONE-frame stack: exactly one block is written, and it is the frame with a leading axis (1, X, Y) - what tifffile stores as a series of shape
+    (1, X, Y) with the axes string ZXY (model cross-checked natively for Z = 1, 2, 3) and TiffImageStack reads back as (X, Y, 1, 1)"""
+    at, n = E.ghost["page_frames"](E)
+    log = page_log_of(E)
+    return z3.Implies(n == 1, z3.And(zint(log.n) == 1, z3.Select(log.cols[0], 0) == X.FRAME_NEWAXIS0(at(z3.IntVal(0))), z3.Select(log.cols[1], 0) == 1))
 
 
 def frames_view(fr):
@@ -845,12 +869,12 @@ def writer_protocol(E, fname):
     return [nm for nm, _ in w] == ["tifffile.TiffWriter", "TiffWriter.__enter__", "TiffWriter.__exit__"] and w[0][1]["file"] is fname and w[0][1]["kwargs"] == {}
 
 
-def save_tif_loop(frames_of):
+def save_tif_loop():
     def inv(E, v, o):
-        at, n = frames_view(frames_of(E, v))
-        return pages_are(E, n, at, upto=to_z3(v["_k0"], "int"))
+        want, n = expected_page(E)
+        return pages_are(E, n, want, upto=to_z3(v["_k0"], "int"))
 
-    return {0: dict(invariant=[("one-page-per-frame-so-far-in-order-with-the-documented-options", B.closed(inv))], modifies=[page_log_of])}
+    return {0: dict(invariant=[("one-block-per-frame-so-far-in-order-with-the-documented-options", B.closed(inv))], modifies=[page_log_of])}
 
 
 def rendered_frame(E):
@@ -866,25 +890,32 @@ def reg_to_image_stack_plumbing(R):
             fname = sym_name(S)
             frames = S.plist("ref", name="frames")
             frames.frozen = True
+            frames.proto = X.FRAME_PROTO  # the entries are frame references (frame[np.newaxis] is defined on them)
             d = dict(fname=fname, frames=Iter(frames), __ghost__=dict(frames=frames))
             if resolution is not None:
                 d["resolution"] = resolution(S)
-            pages_setup(S, fname, d.get("resolution", (1, 1)))
+            pages_setup(S, fname, d.get("resolution", (1, 1)), lambda E: frames_view(E.spec_extra["frames"]))
             return d
 
         return f
 
     def st_pages(E, v, o):
+        want, n = expected_page(E)
+        return pages_are(E, n, want)
+
+    def st_pages_two_or_more(E, v, o):
         at, n = frames_view(E.spec_extra["frames"])
-        return pages_are(E, n, at)
+        return z3.Implies(n >= 2, pages_are(E, n, at))
 
     R.add(
         SAVE_TIF_KEY,
         prop="C20",
         variants={"default-resolution": st_setup(None), "resolution-given": st_setup(lambda S: (S.real("rx"), S.real("ry")))},
-        loops=save_tif_loop(lambda E, v: E.spec_extra["frames"]),
+        loops=save_tif_loop(),
         ensures=[
-            ("one-page-per-frame-in-order-contiguous-minisblack-resolution-unit-um-axes-ZXY", st_pages),
+            ("one-page-per-frame-in-order-contiguous-minisblack-resolution-unit-um-axes-ZXY", st_pages_two_or_more),
+            ("one-block-per-frame-in-order-a-ONE-frame-stack-as-one-(1,X,Y)-block-contiguous-minisblack-resolution-unit-um-axes-ZXY", st_pages),
+            ("a-ONE-frame-stack-is-written-as-one-(1,X,Y)-block-which-reads-back-as-(X,Y,1,1)", lambda E, v, o: one_frame_block(E)),
             ("opens-the-named-file-once-and-closes-it", lambda E, v, o: writer_protocol(E, v["fname"])),
             "returns-nothing :: result is None",
         ],
@@ -898,7 +929,7 @@ def reg_to_image_stack_plumbing(R):
             d = B.tr_setup(S)
             ranges = (B.box3(S, "rlo"), B.box3(S, "rhi")) if kw else None
             fname = sym_name(S)
-            pages_setup(S, fname, (1, 1))
+            pages_setup(S, fname, (1, 1), rendered_frame)
             return dict(self=d["self"], fname=fname, x=d["x"], verbose=False, kwargs=PDict({"ranges": ranges} if kw else {}), __ghost__=dict(ranges=ranges))
 
         return f
@@ -910,7 +941,11 @@ def reg_to_image_stack_plumbing(R):
 
     def ts_pages(E, v, o):
         at, n = rendered_frame(E)
-        return pages_are(E, n, at)
+        return z3.Implies(n >= 2, pages_are(E, n, at))
+
+    def ts_blocks(E, v, o):
+        want, n = expected_page(E)
+        return pages_are(E, n, want)
 
     def ts_box(which):
         return lambda E, v, o: B.tr_box(which)(E, as_transform(E, v), o)
@@ -926,9 +961,11 @@ def reg_to_image_stack_plumbing(R):
         prop="C20",
         variants={"verbose=False": ts_setup(False), "verbose=False,ranges-forwarded": ts_setup(True)},
         requires=[("resolution-positive", B.res_positive)] + [B.scene_wf(w) for w in B.SCENE_WF],  # the tree handed on to _get_scene is well formed
-        inlined_loops={TRANSFORM_KEY: transform_loop(), SAVE_TIF_KEY: save_tif_loop(lambda E, v: v["frames"])},
+        inlined_loops={TRANSFORM_KEY: transform_loop(), SAVE_TIF_KEY: save_tif_loop()},
         ensures=[
             ("page-j-is-the-uint8-frame-of-z-slice-j-of-this-tree-in-slice-order-axes-ZXY-resolution-(1,1)", ts_pages),
+            ("block-j-is-the-uint8-frame-of-z-slice-j-a-ONE-slice-raster-as-one-(1,X,Y)-block-axes-ZXY-resolution-(1,1)", ts_blocks),
+            ("a-ONE-slice-raster-is-written-as-one-(1,X,Y)-block-which-reads-back-as-(X,Y,1,1)", lambda E, v, o: one_frame_block(E)),
             ("opens-the-named-file-once-and-closes-it", lambda E, v, o: writer_protocol(E, v["fname"])),
         ] + plumbing + ["returns-nothing :: result is None"],
         notes="the saved stack goes through ToImageStack.save_tif (tifffile.TiffWriter, one page per z slice), NOT through save_tiff; transform and save_tif are inlined, "
@@ -1122,8 +1159,8 @@ def lemmas():
 
     # the rasteriser's file (ToImageStack.save_tif): Z >= 2 pages F_z of shape (X, Y) written contiguously with axes ZXY are ONE series S[z, x, y] = F_z[x, y]
     # (tifffile's behaviour: hypothesis, cross-checked natively); TiffImageStack's clauses for a 3-D file with axes ZXY then give (X, Y, Z, 1) with voxel
-    # [x, y, z, 0] = F_z[x, y].  FINDING (bounded clause ToImageStack.save_tif/raster-file-roundtrip, replayed natively): for Z = 1 tifffile reports a 2-D
-    # series with axes 'YX', and TiffImageStack / NDArrayImageStack refuse it (AssertionError) - a tree that is one slice thick cannot be read back.
+    # [x, y, z, 0] = F_z[x, y].  FINDING (docs/w3/c20.md; known_findings.jsonl): the unfixed save_tif writes a ONE-frame stack as a bare (X, Y) page, which
+    # tifffile reports as a 2-D series with axes 'YX'; TiffImageStack / NDArrayImageStack refuse it (AssertionError) - a tree one slice thick cannot be read back.
     F = z3.Function("rt2_frame", I, I, I, Rs)
     S3 = z3.Function("rt2_series", I, I, I, Rs)
     ssh = [Zn, Xn, Yn]
@@ -1139,6 +1176,19 @@ def lemmas():
         return Rd(*ix) == rdx(S3(*fx))
 
     h_read = B.forall_idx(rsh, rd3)
-    out.append(("rasterised-stack-of-Z>=2-slices-saved-page-by-page-with-axes-ZXY-reads-back-as-(X,Y,Z,1)-voxel-[x,y,z,0]-from-page-z-[x,y]", [Zn >= 2, h_series, h_read],
+    # Z >= 1 (it was Z >= 2): for Z = 1 the series hypothesis holds because the writer hands tifffile ONE (1, X, Y) block (clause
+    # `a-ONE-frame-stack-is-written-as-one-(1,X,Y)-block...` / effect obligation `block-k-written-is-...` of save_tif and transform_and_save), which tifffile
+    # stores as a series of shape (1, X, Y) with axes ZXY (tools/xcheck_ext_C20.py, Z = 1, 2, 3); a bare (X, Y) page would be a 2-D series 'YX'.
+    out.append(("rasterised-stack-of-Z>=1-slices-saved-block-by-block-with-axes-ZXY-reads-back-as-(X,Y,Z,1)-voxel-[x,y,z,0]-from-page-z-[x,y]", [Zn >= 1, h_series, h_read],
                 z3.And(rsh[0] == Xn, rsh[1] == Yn, rsh[2] == Zn, rsh[3] == 1, B.forall_idx([Xn, Yn, Zn, 1], lambda ix: Rd(*ix) == rdx(F(ix[2], ix[0], ix[1]))))))
+    # the ONE-frame case spelled out: block = frame[np.newaxis] (block[0, x, y] = frame[x, y]: what np.newaxis means), series = the block, reader's clauses for axes ZXY
+    Fr = z3.Function("rt2_one_frame", I, I, Rs)
+    Bk = z3.Function("rt2_block", I, I, I, Rs)
+    one = [z3.IntVal(1), Xn, Yn]
+    h_block = B.forall_idx(one, lambda ix: Bk(*ix) == Fr(ix[1], ix[2]))
+    h_ser1 = B.forall_idx(one, lambda ix: S3(*ix) == Bk(*ix))
+    rsh1 = [one[p] for p in src_of] + [z3.IntVal(1)]
+    h_read1 = B.forall_idx(rsh1, rd3)
+    out.append(("one-frame-stack-written-as-a-(1,X,Y)-block-reads-back-as-(X,Y,1,1)-voxel-[x,y,0,0]-is-the-frame's-[x,y]", [h_block, h_ser1, h_read1],
+                z3.And(rsh1[0] == Xn, rsh1[1] == Yn, rsh1[2] == 1, rsh1[3] == 1, B.forall_idx([Xn, Yn, 1, 1], lambda ix: Rd(*ix) == rdx(Fr(ix[0], ix[1]))))))
     return out
